@@ -121,6 +121,8 @@ func alphabetValues() []m.Op {
 		out = append(out, m.Op{K: "replaceById", Coll: "a", Id: u2, Docs: []m.Doc{doc(u2, "x", v, "y", int64(i))}})
 	}
 	out = append(out,
+		// the same number in another Go type is a different document value
+		updID("a", u1, "copy", "x", uint64(1)), updID("a", u1, "inplace", "x", float64(1)),
 		ins("a", doc(u3, "x", int64(1), "y", "q"), doc(u2, "x", "s")),
 		m.Op{K: "save", Coll: "a", Docs: []m.Doc{doc(u3, "x", uint64(1))}},
 		m.Op{K: "update", Q: qOn("a", m.Leaf("lte", "x", int64(1))), Set: setMap("x", float64(2.5), "z", true)},
